@@ -127,8 +127,14 @@ def c06_2(c: Ctx) -> None:
     for rn in rel:
         sid = {n.id for n in sets_false}
         p = search([(gx.entry, ())], is_target=lambda n, d: n is rn, is_barrier=lambda n, d: n.id in sid)
+        after = None
+        if p is not None and sets_false:
+            # __aexit__ does not suspend (checked above): clearing the flag right after the release is the same atomic step as clearing it right before
+            after = search([(rn, ())], is_target=lambda n, d: n.kind == 'exit', is_barrier=lambda n, d: n.id in sid, edge_ok=lambda n, e, d: None if e.is_exc else d)
         if p is None and sets_false:
             c.ok(where(ax, rn.ast), 'release() only after holds_global_lock.set(False)')
+        elif sets_false and after is None and not any(q.node_has_await(n) for n in gx.live_nodes()):
+            c.ok(where(ax, rn.ast), 'release() is followed by holds_global_lock.set(False) on every path, without a suspension in between')
         else:
             c.fail(ax, 'semaphore.release() reachable without holds_global_lock.set(False) first', 'the lock is released while this context still believes it holds it', node=rn.ast)
         for sf in sets_false:
